@@ -49,6 +49,7 @@ type Config struct {
 	Seed            int64
 	Concrete        map[string]uint64 // replay: fixed values for nondets (engine concrete mode)
 	ConcreteChoices []int
+	ConcreteSched   []int
 	RecordQueries   bool
 	NoMerge         bool
 	SlowQuery       time.Duration
@@ -674,4 +675,15 @@ func (e *Engine) dumpSlow(script string, d time.Duration, res string) {
 	}
 	os.MkdirAll(e.Cfg.SlowDir, 0o755)
 	os.WriteFile(fmt.Sprintf("%s/slow_%03d_%s_%dms.smt2", e.Cfg.SlowDir, n, res, d.Milliseconds()), []byte(script), 0o644)
+}
+
+// SchedChoices extracts the scheduler decisions of a recorded path.
+func SchedChoices(path []Decision) []int {
+	var out []int
+	for _, d := range path {
+		if d.Kind == dkSched {
+			out = append(out, int(d.Alt))
+		}
+	}
+	return out
 }
